@@ -208,6 +208,57 @@ theorem C11_sanitize_complete (U : Uni) (names values : List Str) :
 
 /-! ### The literal -/
 
+/-! ### Third pass -/
+
+theorem pass3_spec (norm : Str → Str) (ps out : List (Str × Str)) (hout : (out.map (·.1)).Nodup) :
+    ∃ res, pass3 norm ps out = some res ∧ (res.map (·.1)).Nodup ∧ res.map (·.2) = out.reverse.map (·.2) ++ ps.map (·.2) := by
+  induction ps generalizing out with
+  | nil =>
+    refine ⟨out.reverse, rfl, ?_, by simp⟩
+    rw [List.map_reverse]; exact (List.reverse_perm _).nodup_iff.mpr hout
+  | cons p rest ih =>
+    obtain ⟨n, v⟩ := p
+    simp only [pass3]
+    split
+    · obtain ⟨⟨name, k⟩, hf⟩ := freeName_some (out.map (·.1)) (norm n) 1
+      rw [hf]
+      have hnt := freeName_not_taken _ _ _ _ _ _ hf
+      obtain ⟨res, h1, h2, h3⟩ := ih ((name, v) :: out) (by simp only [List.map_cons, List.nodup_cons]; exact ⟨hnt, hout⟩)
+      exact ⟨res, h1, h2, by simp [h3]⟩
+    · rename_i hc
+      obtain ⟨res, h1, h2, h3⟩ := ih ((norm n, v) :: out) (by
+        simp only [List.map_cons, List.nodup_cons]; exact ⟨by simpa using hc, hout⟩)
+      exact ⟨res, h1, h2, by simp [h3]⟩
+
+/-- **The constants `GenerateGoSchema` declares for an enum** (`SanitizeEnumNames`, then the type-name renaming of every
+name, in whatever order the names are walked): pairwise distinct names, and as values exactly the distinct values of the
+schema, each once — no value is dropped or merged by either renaming. For every value list, every variable-name list, every
+renaming function. -/
+theorem C11_declared_constants_complete (U : Uni) (norm : Str → Str) (names values : List Str) :
+    ∃ res, sanitizeEnumNames U names values = some res ∧
+      ∀ ps : List (Str × Str), ps.Perm res →
+        ∃ out, pass3 norm ps [] = some out ∧ (out.map (·.1)).Nodup ∧ (out.map (·.2)).Nodup ∧
+          (∀ v ∈ values, v ∈ out.map (·.2)) ∧ (∀ p ∈ out, p.2 ∈ values) := by
+  obtain ⟨res, hr, _, hv, hall, hin⟩ := C11_sanitize_complete U names values
+  refine ⟨res, hr, ?_⟩
+  intro ps hp
+  obtain ⟨out, h1, h2, h3⟩ := pass3_spec norm ps [] (by simp)
+  simp only [List.reverse_nil, List.map_nil, List.nil_append] at h3
+  have hperm : (out.map (·.2)).Perm (res.map (·.2)) := by rw [h3]; exact hp.map _
+  refine ⟨out, h1, h2, hperm.nodup_iff.mpr hv, fun v hvv => hperm.mem_iff.mpr (hall v hvv), ?_⟩
+  intro p hpo
+  have : p.2 ∈ res.map (·.2) := hperm.mem_iff.mp (List.mem_map.mpr ⟨p, hpo, rfl⟩)
+  obtain ⟨q, hq, e⟩ := List.mem_map.mp this
+  rw [← e]; exact hin q hq
+
+/-- Pre-repair witness (replayed on the code: enum `[" 1a", "a"]` declared the single constant `A = "a"`; repaired in
+/repo): the renamed names were map keys, the second value replaced the first. `ucFirstA` stands for the renaming on these
+two names. -/
+theorem C11_third_pass_old_witness :
+    let norm : Str → Str := fun n => if n = [95, 97] then [65] else n      -- "_a" ↦ "A"
+    pass3Old norm [([95, 97], [32, 49, 97]), ([65], [97])] = [([65], [97])] ∧
+    pass3 norm [([65], [97]), ([95, 97], [32, 49, 97])] [] = some [([65], [97]), ([65, 49], [32, 49, 97])] := by decide
+
 theorem unhexL_lowerHex (n : Nat) (h : n < 16) : unhexL (lowerHex n) = some n := by
   have : ∀ n, n < 16 → unhexL (lowerHex n) = some n := by decide
   exact this n h
